@@ -162,7 +162,9 @@ def validation(ctx, n):
         data["mystery"] = ctx.num("mystery", "int")
     for i in range(n):
         if present[i]:
-            contents[i] = data[NAMES[i]] = ctx.num("content_%d" % i, "int")
+            # YAML "section:" with nothing after it delivers None; "section: {}" an empty mapping
+            kind = ctx.choice("content_kind_%d" % i, 3)
+            contents[i] = data[NAMES[i]] = (ctx.num("content_%d" % i, "int") if kind == 0 else (None if kind == 1 else {}))
     if logging_sec:
         data["logging"] = {"version": 1}
     if unknown and not unknown_first:
@@ -191,7 +193,7 @@ def validation(ctx, n):
     ctx.require(sorted(i for i, _ in digests) == [i for i in range(n) if present[i]],
                 "plugins with a section are called exactly once, plugins without are not called")
     for i, c in digests:
-        ctx.require(same(c, contents[i]), "each plugin receives exactly its section's content")
+        ctx.require(same(c, contents[i]) or c is contents[i], "each plugin receives exactly its section's content")
     ctx.require([x for x in log if x[0] == "logging"] == ([("logging", {"version": 1})] if logging_sec else []),
                 "the logging section is handed to the logging configuration, exactly once")
     kept = {p.section: v for p, v in out.items()}
@@ -215,7 +217,7 @@ def combined(ctx):
     data = {}
     for i in range(n):
         if present[i]:
-            data[NAMES[i]] = ctx.num("content_%d" % i, "int")
+            data[NAMES[i]] = ctx.num("content_%d" % i, "int") if i else None
     if unknown:
         data["mystery"] = 0
     try:
